@@ -795,6 +795,15 @@ def run(ctx):
     if ctx.quick:
         sel = [(v, p) for v, p in wmo if v in (13, 33, 41)] or wmo[:2]
         sel_local = local[:1]
+        # ... and the local tables that RE-DEFINE elements of the master Table B (the override must also be seen through the
+        # master's own sequences)
+        b_master = set(load_json(os.path.join(dict(wmo).get(33) or wmo[-1][1], 'TableB.json')))
+        for t in local[1:]:
+            try:
+                if b_master & set(load_json(os.path.join(t[3], 'TableB.json'))) and len(sel_local) < 3:
+                    sel_local.append(t)
+            except Exception:
+                pass
     else:
         sel, sel_local = wmo, local
     jobs = []
